@@ -2,6 +2,7 @@ import Batteries.Tactic.Alias
 import GenlmModel.Proofs.CfgBytes
 import GenlmModel.Proofs.Wfsa2
 import GenlmModel.Proofs.LimWfsa
+import GenlmModel.Proofs.GapBytes
 /-! # C17 — automaton→grammar and byte-level conversions preserve weights -/
 namespace Genlm.Props.C17
 /-- right-recursive grammar: derivation sums = path sums, provided state names are disjoint from the
@@ -21,4 +22,10 @@ alias cfg_to_bytes_prefix_free := Genlm.cfgToBytes_WN_prefixFree
 /-! ## at the limit (ℝ≥0∞): machines with ε cycles -/
 alias to_cfg_right_limit := Genlm.toCfgRight_WL
 alias to_cfg_left_limit := Genlm.toCfgLeft_WL
+
+/-- byte machine / byte grammar at the limit: a byte string weighs the total weight of the symbol strings it encodes, 0 if none -/
+alias to_bytes_limit := Genlm.toBytes_PL_tsum
+alias to_bytes_not_encoding_limit := Genlm.toBytes_PL_not_encoding
+alias cfg_to_bytes_limit := Genlm.cfgToBytes_WL
+alias cfg_to_bytes_not_encoding_limit := Genlm.cfgToBytes_WL_not_encoding
 end Genlm.Props.C17
